@@ -17,7 +17,9 @@ TRUSTED_BASE = ['A-py (CPython evaluation order, attribute lookup)', 'A-bi-tuple
                 'A-bi-set (membership = equal hash and ==)', 'A-bi-sort (list.sort orders by <)',
                 'R-loop (invariant + variant)', 'A-re (E2 model of VERSION_RE, cross-checked against CPython re on every witness)']
 ASSUMPTIONS = ['mathematical integers are exact for Python int', 'version strings are abstract keys outside Version.__init__; '
-               'Version.__init__ is verified separately on the real regex (tasks init/*)']
+               'Version.__init__ is verified separately on the real regex (task init): shape-bounded to 1..4 numeric components; for a string with '
+               'trailing text the obligation is that an extra is present (which part of it the repeated group captures depends on match priorities '
+               'the engine does not model, and the order does not depend on it)']
 EXPLANATION = ('Version._cmp is verified against the padded-lexicographic order spec with a loop invariant; the six operators, '
                '__hash__ (loop invariant: trailing zeros stripped) and nearest() are verified against the _cmp contract; '
                'order laws are lemmas over the spec.')
